@@ -121,10 +121,22 @@ def run(ctx):
         ('parseFailed', dict(raw_after_banner=fn.pkt(b'\x14' + b'B' * 11))),
         ('ok', dict()),
     ]
+    # the identification string is printed (and rated: SSH-1.x, non-printable characters) before the handshake breaks: none of that may lift the status of an incomplete audit
+    banners = [b'SSH-2.0-OpenSSH_8.0', b'SSH-1.99-OpenSSH_3.9p1', b'SSH-1.5-Cisco-1.25', b'SSH-2.0-Open\xc3\xa9SSH_8.0', b'SSH-2.0-dropbear_2012.55 some comment', b'SSH-2.0-X\x07Y', b'SSH-1.99-\xff\xfe']
+    all_modes = (([], 'standard'), (['-j'], 'standard'), (['-b'], 'standard'), (['-v'], 'standard'), (['-l', 'warn'], 'standard'))
+    combos = []
     for hs, kw in faults:
-        for mode_args, mode in (([], 'standard'), (['-j'], 'standard'), (['-b'], 'standard'), (['-v'], 'standard'), (['-l', 'warn'], 'standard')):
-            args = dict(banner=b'SSH-2.0-OpenSSH_8.0', kexinit_payload=good_kex, hostkeys={'ssh-ed25519': fn.ed25519_blob()})
+        for bn in (banners if hs != 'ok' and 'banner' not in kw else banners[:1]):
+            modes = all_modes if (bn == banners[0] or ctx.tier == 'thorough') else r.sample(all_modes, 2)
+            for mode_args, mode in modes:
+                combos.append((hs, kw, bn, mode_args, mode))
+    for hs, kw_, bn, mode_args, mode in combos:
+        if True:
+            kw = dict(kw_)
+            args = dict(banner=bn, kexinit_payload=good_kex, hostkeys={'ssh-ed25519': fn.ed25519_blob()})
             args.update(kw)
+            if bn != banners[0]:
+                kw['banner'] = args['banner']
             srv = fn.Server(**args)
             net = fn.FakeNet({'10.0.0.5': srv})
             code, out = fn.run_main(['-n', '--skip-rate-test'] + mode_args + ['10.0.0.5'], net)
